@@ -166,6 +166,25 @@ async fn compare_index(view: &str, backend: &str, account: &LocalAccount, model:
     }
 }
 
+/// C20 counters: documents per folder and per kind (archived documents are not counted per kind) equal a recount
+async fn compare_counts(view: &str, backend: &str, account: &LocalAccount, model: &Model, archive_id: &VaultId, trace: &Vec<String>, case: usize) {
+    let count = account.document_count().await.unwrap();
+    for (fid, (name, secrets)) in model.iter() {
+        let got = count.vaults().get(fid).copied().unwrap_or(0);
+        if got != secrets.len() {
+            fail("search-folder-counter-differs-from-recount", format!("\"backend\":\"{}\",\"view\":\"{}\",\"case\":{},\"trace\":{:?},\"folder\":{:?},\"counter\":{},\"recount\":{}", backend, view, case, trace, name, got, secrets.len()));
+        }
+    }
+    for (kind, is_file) in [(SecretType::Note, false), (SecretType::File, true)] {
+        let want: usize = model.iter().filter(|(fid, _)| *fid != archive_id).map(|(_, (_, s))| s.values().filter(|v| v.2.is_empty() != is_file).count()).sum();
+        let code: u8 = kind.into();
+        let got = count.kinds().get(&code).copied().unwrap_or(0);
+        if got != want {
+            fail("search-kind-counter-differs-from-recount", format!("\"backend\":\"{}\",\"view\":\"{}\",\"case\":{},\"trace\":{:?},\"kind\":{},\"counter\":{},\"recount_excluding_archive\":{}", backend, view, case, trace, code, got, want));
+        }
+    }
+}
+
 async fn read_entries(path: &Path) -> Vec<(String, Vec<u8>)> {
     let buffer = std::fs::read(path).unwrap();
     let mut reader = ZipReader::new(Cursor::new(buffer)).await.unwrap();
@@ -216,7 +235,7 @@ pub async fn run(cases: usize, seed: u64) {
             let sandbox_dir = sandbox.path().canonicalize().unwrap();
             let target = target_for(backend, &sandbox_dir.join("source")).await;
             let password: secrecy::SecretString = format!("correct horse battery staple {} {}", case, r.below(1000000)).into();
-            let mut account = LocalAccount::new_account(format!("acct-{}", case), password.clone(), target.clone()).await.unwrap();
+            let mut account = LocalAccount::new_account_with_builder(format!("acct-{}", case), password.clone(), target.clone(), |b| b.create_archive(true).create_file_password(true)).await.unwrap();
             let account_id = *account.account_id();
             let key: AccessKey = password.clone().into();
             account.sign_in(&key).await.unwrap();
@@ -224,6 +243,9 @@ pub async fn run(cases: usize, seed: u64) {
             let default_folder = account.default_folder().await.unwrap();
             let mut model: Model = BTreeMap::new();
             model.insert(*default_folder.id(), (default_folder.name().to_string(), BTreeMap::new()));
+            let archive_folder = account.archive_folder().await.unwrap();
+            model.insert(*archive_folder.id(), (archive_folder.name().to_string(), BTreeMap::new()));
+            let archive_id = *archive_folder.id();
             let mut trace: Vec<String> = vec![];
             if case % 2 == 1 {
                 // a folder created and deleted before another one is populated (row ids / positions diverge)
@@ -248,11 +270,75 @@ pub async fn run(cases: usize, seed: u64) {
                 model.get_mut(&fid).unwrap().1.insert(id, (l, String::new(), files));
                 trace.push(format!("create_file_secret({} file(s))", nfiles));
             }
+            let mut snapshot: Option<(VaultId, Vec<u8>, AccessKey, FolderModel)> = None;
+            if case % 5 == 3 {
+                // forced overwrite with a vault that LACKS a stored secret: folder with two notes, snapshot, a third
+                // note, snapshot imported over the folder -> the folder holds the two notes again
+                let name = format!("folder-{}", r.below(100000));
+                let f = account.create_folder(NewFolderOptions::new(name.clone())).await.unwrap().folder;
+                let fid = *f.id();
+                let mut secrets = BTreeMap::new();
+                for _ in 0..2 {
+                    let (m, s, l, t) = note(&mut r);
+                    let id = account.create_secret(m, s, AccessOptions { folder: Some(fid), ..Default::default() }).await.unwrap().id;
+                    plaintexts.push(l.clone()); plaintexts.push(t.clone());
+                    secrets.insert(id, (l, t, vec![]));
+                }
+                let skey: AccessKey = secrecy::SecretString::from(format!("snapshot key {} {}", case, r.below(1000000))).into();
+                let buf = account.export_folder_buffer(&fid, skey.clone(), false).await.unwrap();
+                let (m, s, _, _) = note(&mut r);
+                account.create_secret(m, s, AccessOptions { folder: Some(fid), ..Default::default() }).await.unwrap();
+                account.import_folder_buffer(&buf, skey, true).await.unwrap();
+                model.insert(fid, (name, secrets));
+                trace.push("create_folder; 2x create_secret; export_folder_buffer; create_secret; import_folder_buffer(overwrite)".into());
+            }
             let n = 3 + r.below(8) as usize;
             for _ in 0..n {
                 let fids: Vec<VaultId> = model.keys().copied().collect();
                 let fid = fids[r.below(fids.len() as u64) as usize];
-                match r.below(10) {
+                match r.below(14) {
+                    12 => {
+                        // take a snapshot of a folder (export to a buffer under a fresh key)
+                        if snapshot.is_none() && case % 4 != 2 && fid != archive_id {
+                            let skey: AccessKey = secrecy::SecretString::from(format!("snapshot key {} {}", case, r.below(1000000))).into();
+                            let buf = account.export_folder_buffer(&fid, skey.clone(), false).await.unwrap();
+                            snapshot = Some((fid, buf, skey, model[&fid].clone()));
+                            trace.push("export_folder_buffer".into());
+                        }
+                    }
+                    13 => {
+                        // forced overwrite: import the snapshot over the folder it was taken from
+                        if let Some((sfid, buf, skey, smodel)) = snapshot.clone() {
+                            if model.contains_key(&sfid) {
+                                account.import_folder_buffer(&buf, skey, true).await.unwrap();
+                                model.insert(sfid, smodel);
+                                snapshot = None;
+                                trace.push("import_folder_buffer(overwrite)".into());
+                            }
+                        }
+                    }
+                    10 => {
+                        // archive a note of a non-archive folder
+                        let ids: Vec<uuid::Uuid> = model[&fid].1.iter().filter(|(_, v)| v.2.is_empty()).map(|(k, _)| *k).collect();
+                        if fid != archive_id && !ids.is_empty() {
+                            let id = ids[r.below(ids.len() as u64) as usize];
+                            let mv = account.archive(&fid, &id, Default::default()).await.unwrap();
+                            let v = model.get_mut(&fid).unwrap().1.remove(&id).unwrap();
+                            model.get_mut(&archive_id).unwrap().1.insert(mv.id, v);
+                            trace.push("archive".into());
+                        }
+                    }
+                    11 => {
+                        let ids: Vec<uuid::Uuid> = model[&archive_id].1.iter().filter(|(_, v)| v.2.is_empty()).map(|(k, _)| *k).collect();
+                        if !ids.is_empty() {
+                            let id = ids[r.below(ids.len() as u64) as usize];
+                            let (mv, to) = account.unarchive(&id, &SecretType::Note, Default::default()).await.unwrap();
+                            let v = model.get_mut(&archive_id).unwrap().1.remove(&id).unwrap();
+                            if !model.contains_key(to.id()) { fail("unarchive-to-unknown-folder", format!("\"backend\":\"{}\",\"case\":{},\"trace\":{:?}", backend, case, trace)); }
+                            model.get_mut(to.id()).unwrap().1.insert(mv.id, v);
+                            trace.push("unarchive".into());
+                        }
+                    }
                     9 => {
                         account.compact_folder(&fid).await.unwrap();
                         trace.push("compact_folder".into());
@@ -304,7 +390,7 @@ pub async fn run(cases: usize, seed: u64) {
                         trace.push("create_folder".into());
                     }
                     7 => {
-                        if fid != *default_folder.id() {
+                        if fid != *default_folder.id() && fid != archive_id {
                             let name = format!("renamed-{}", r.below(100000));
                             account.rename_folder(&fid, name.clone()).await.unwrap();
                             model.get_mut(&fid).unwrap().0 = name;
@@ -312,7 +398,7 @@ pub async fn run(cases: usize, seed: u64) {
                         }
                     }
                     _ => {
-                        if fid != *default_folder.id() {
+                        if fid != *default_folder.id() && fid != archive_id {
                             account.delete_folder(&fid).await.unwrap();
                             model.remove(&fid);
                             trace.push("delete_folder".into());
@@ -322,6 +408,7 @@ pub async fn run(cases: usize, seed: u64) {
             }
             compare("live", backend, &account, &model, &trace, case).await;
             compare_index("live", backend, &account, &model, &trace, case).await;
+            compare_counts("live", backend, &account, &model, &archive_id, &trace, case).await;
             if std::env::var("SOS_ACCT_SELFTEST").is_ok() {
                 // oracle self-test: with one label of the model changed the index comparison MUST report a difference
                 let mut wrong = model.clone();
@@ -351,6 +438,7 @@ pub async fn run(cases: usize, seed: u64) {
             compare("after sign-out/sign-in", backend, &account, &model, &trace, case).await;
             account.initialize_search_index().await.unwrap();
             compare_index("rebuilt after sign-in", backend, &account, &model, &trace, case).await;
+            compare_counts("rebuilt after sign-in", backend, &account, &model, &archive_id, &trace, case).await;
 
             let status_before = { use sos_sync::SyncStorage; account.sync_status().await.unwrap() };
             // ---- C18: export, import into empty storage ---------------------------------------------
@@ -363,11 +451,29 @@ pub async fn run(cases: usize, seed: u64) {
                 let up_dir = sandbox_dir.join("upgrade");
                 copy_dir(&sandbox_dir.join("source"), &up_dir);
                 let up_paths = Paths::new_client(&up_dir);
-                let options = sos_database_upgrader::UpgradeOptions { paths: up_paths.clone(), dry_run: false, keep_stale_files: true, ..Default::default() };
+                // the account's server list (remote origins file): two servers, one of which the upgrade is asked to remap
+                let origins_file = up_paths.with_account_id(&account_id).remote_origins();
+                std::fs::write(&origins_file, br#"[{"name":"alpha","url":"https://alpha.example.com/"},{"name":"beta","url":"https://beta.example.com/"}]"#).unwrap();
+                let mut remap = std::collections::HashMap::new();
+                remap.insert(url::Url::parse("https://alpha.example.com/").unwrap(), url::Url::parse("https://alpha2.example.com/").unwrap());
+                let options = sos_database_upgrader::UpgradeOptions { paths: up_paths.clone(), dry_run: false, keep_stale_files: true, remap_servers: remap, ..Default::default() };
                 match sos_database_upgrader::upgrade_accounts(up_dir.clone(), options).await {
                     Err(e) => fail("upgrade-fails", format!("\"case\":{},\"trace\":{:?},\"error\":\"{}\"", case, trace, e.to_string().replace('"', "'"))),
                     Ok(res) => {
                         let client = sos_database::open_file(&res.database_file).await.unwrap();
+                        // C19 "server list": every server is kept, the remapped one with its new url
+                        let mut urls: Vec<String> = client.conn(|conn| {
+                            let mut stmt = conn.prepare("SELECT url FROM servers")?;
+                            let rows = stmt.query_map([], |row| row.get::<_, String>(0))?;
+                            let mut out = vec![];
+                            for r in rows { out.push(r?); }
+                            Ok(out)
+                        }).await.unwrap();
+                        urls.sort();
+                        let want = vec!["https://alpha2.example.com/".to_string(), "https://beta.example.com/".to_string()];
+                        if urls != want {
+                            fail("upgrade-changes-server-list", format!("\"case\":{},\"servers_after\":{:?},\"expected\":{:?},\"remap\":\"alpha -> alpha2\"", case, urls, want));
+                        }
                         let db_target = BackendTarget::Database(up_paths.clone(), client);
                         let mut up = LocalAccount::new_unauthenticated(account_id, db_target).await.unwrap();
                         if let Err(e) = up.sign_in(&key).await {
